@@ -8,6 +8,7 @@ import (
 	"encoding/json"
 	"fmt"
 	"io"
+	"path/filepath"
 	"sort"
 	"strings"
 	"time"
@@ -43,6 +44,7 @@ type c08Case struct {
 	Spec   *gen.Spec  `json:"spec,omitempty"`
 	Layout gen.Layout `json:"layout"`
 	Split  *c04Case   `json:"split,omitempty"`
+	Dirs   string     `json:"dirs,omitempty"` // split cases: where the files live (abs, up, dot)
 }
 
 var c08Layouts = []gen.Layout{
@@ -101,6 +103,11 @@ func (c08) Cases(tier string, emit func(string, interface{})) {
 			}
 			for _, place := range []string{"onefile", "chain", "star"} {
 				emit("split", c08Case{Label: fmt.Sprintf("split %v %s", blocks, place), Split: &c04Case{Members: members, Blocks: blocks, Place: place}, Layout: gen.DefaultLayout})
+			}
+			// the same star placement with the files in directories: absolute root module, imports
+			// that climb above the working directory, a dot directory (plain filesystem)
+			for _, dirs := range []string{"abs", "up", "dot"} {
+				emit("splitdirs", c08Case{Label: fmt.Sprintf("split %v star %s", blocks, dirs), Split: &c04Case{Members: members, Blocks: blocks, Place: "star"}, Layout: gen.DefaultLayout, Dirs: dirs})
 			}
 		}
 	}
@@ -208,6 +215,35 @@ func (c08) Run(c core.Case) core.Outcome {
 	var fc filesCase
 	if cs.Split != nil {
 		fc, want = c08SplitFiles(*cs.Split)
+		if cs.Dirs != "" {
+			rename := func(n string) string {
+				switch cs.Dirs {
+				case "abs":
+					return "/proj/apps/" + n
+				case "dot":
+					return ".specs/" + n
+				case "up":
+					if n != "r.sysl" {
+						return "../shared/" + n
+					}
+				}
+				return n
+			}
+			nf := map[string]string{}
+			for n, t := range fc.Files {
+				if cs.Dirs == "up" && n == "r.sysl" {
+					t = strings.ReplaceAll(t, "import ", "import ../shared/") // same line count: positions unchanged
+				}
+				nf[rename(n)] = t
+			}
+			fc.Files, fc.Root = nf, rename(fc.Root)
+			for k, ws := range want {
+				for i := range ws {
+					ws[i].file = rename(ws[i].file)
+				}
+				want[k] = ws
+			}
+		}
 	} else {
 		r := gen.Render(cs.Spec, cs.Layout)
 		fc = filesCase{Root: "t.sysl", Files: map[string]string{"t.sysl": r.Text}}
@@ -253,7 +289,7 @@ func (c08) Run(c core.Case) core.Outcome {
 		}
 		for i := range w {
 			compared++
-			if g[i].File != w[i].file {
+			if g[i].File != w[i].file && (cs.Dirs == "" || filepath.Clean(g[i].File) != filepath.Clean(w[i].file)) {
 				return fail("file|"+kind, fmt.Sprintf("%s declaration #%d is in %s but the location says %q", k, i, w[i].file, g[i].File))
 			}
 			if g[i].Line != w[i].p.Line || g[i].Col != w[i].p.Col {
